@@ -53,6 +53,7 @@ struct Op {
 struct Case {
     int mode = 0; // 0 fresh, 1 reset
     unsigned fill_a = 0, fill_b = 0xFF;
+    bool user_memory = false; // both instances run on a caller-supplied (zeroed) buffer instead of memory the emulator allocates
     std::vector<Op> p, q;
 };
 
@@ -322,7 +323,7 @@ std::string apply(Sys& s, const Op& op) {
 }
 
 std::string encode(const Case& c) {
-    std::string s = "mode " + vf::hex(c.mode) + " " + vf::hex(c.fill_a) + " " + vf::hex(c.fill_b) + "\n";
+    std::string s = "mode " + vf::hex(c.mode) + " " + vf::hex(c.fill_a) + " " + vf::hex(c.fill_b) + " " + vf::hex(c.user_memory) + "\n";
     for (auto& op : c.p)
         s += std::string("P ") + kKindName[op.kind] + " " + vf::hex(op.a) + " " + vf::hex(op.b) + " " + vf::hex(op.c) + "\n";
     for (auto& op : c.q)
@@ -337,6 +338,7 @@ Case decode(const std::string& text) {
             c.mode = (int)vf::unhex(t[1]);
             c.fill_a = (unsigned)vf::unhex(t[2]);
             c.fill_b = (unsigned)vf::unhex(t[3]);
+            c.user_memory = t.size() >= 5 && vf::unhex(t[4]) != 0;
         } else if (t.size() >= 5 && (t[0] == "P" || t[0] == "Q")) {
             Op op;
             for (int k = 0; k < NKIND; ++k)
@@ -351,10 +353,10 @@ Case decode(const std::string& text) {
     return c;
 }
 
-std::unique_ptr<Sys> make(unsigned fill) {
+std::unique_ptr<Sys> make(unsigned fill, bool user_memory) {
     g_fill = (unsigned char)fill;
     g_fill_on = true;
-    auto s = std::make_unique<Sys>();
+    auto s = std::make_unique<Sys>(!user_memory);
     g_fill_on = false;
     return s;
 }
@@ -384,7 +386,9 @@ std::string component_of(const std::string& name) {
 }
 
 vf::Result check(const Case& c) {
-    auto a = make(c.fill_a), b = make(c.fill_b);
+    auto a = make(c.fill_a, c.user_memory), b = make(c.fill_b, c.user_memory);
+    if (c.user_memory)
+        vf::klass("caller-supplied DSP memory");
     std::string what = c.mode ? "construct;P;Reset;Q vs construct;Reset;Q" : "same history straight after construction";
     if (c.mode == 1) {
         for (auto& op : c.p)
@@ -480,8 +484,8 @@ int main(int argc, char** argv) {
         using namespace rc;
         auto fills = gen::element<unsigned>(0x00, 0xFF, 0xA5, 0x5A, 0x01, 0x80);
         return gen::map(gen::tuple(gen::weightedElement<int>({{1, 0}, {2, 1}}), fills, fills, gen::container<std::vector<Op>>(genOp()),
-                                   gen::container<std::vector<Op>>(genOp())),
-                        [](std::tuple<int, unsigned, unsigned, std::vector<Op>, std::vector<Op>> t) {
+                                   gen::container<std::vector<Op>>(genOp()), vf::range<unsigned>(0, 4)),
+                        [](std::tuple<int, unsigned, unsigned, std::vector<Op>, std::vector<Op>, unsigned> t) {
                             Case c;
                             c.mode = std::get<0>(t);
                             c.fill_a = std::get<1>(t);
@@ -490,6 +494,7 @@ int main(int argc, char** argv) {
                                 c.fill_b ^= 0xFF;
                             c.p = std::get<3>(t);
                             c.q = std::get<4>(t);
+                            c.user_memory = std::get<5>(t) == 0;
                             if (c.mode == 0)
                                 c.p.clear();
                             return c;
